@@ -248,6 +248,29 @@ func wakeScenarios() []wakeScenario {
 				e.Exec(ctx, &Op{Kind: "SeekTime", Name: "projects/p/subscriptions/s0", Target: t}, &Dump{})
 			}
 		}},
+		{"seek-to-snapshot-acking-ordered-predecessor", func(e *Env, run func(*Op) *Obs) (string, func()) {
+			// a sibling subscription has acknowledged m1; its snapshot therefore acknowledges m1
+			// on whoever seeks to it. On the ordered subscription s0, m1 is leased and m2 (same
+			// key) waits behind it: the seek de-acknowledges nothing, it only retires m1 -- and
+			// that makes m2 deliverable
+			baseSetup(run, true, false)
+			run(&Op{Kind: "CreateSub", Sub: &SubReq{Name: "projects/p/subscriptions/sib", Topic: "projects/p/topics/t0"}})
+			run(pub(1, "k"))
+			run(pub(1, "k"))
+			o := run(&Op{Kind: "Pull", Name: "projects/p/subscriptions/sib", Max: 1})
+			run(&Op{Kind: "Ack", Name: "projects/p/subscriptions/sib", AckIDs: mustIDs(o)})
+			run(&Op{Kind: "CreateSnap", Name: "projects/p/snapshots/n0", Name2: "projects/p/subscriptions/sib"})
+			run(&Op{Kind: "Pull", Name: "projects/p/subscriptions/s0", Max: 1})
+			return "projects/p/subscriptions/s0", func() {
+				e.Exec(ctx, &Op{Kind: "SeekSnap", Name: "projects/p/subscriptions/s0", Name2: "projects/p/snapshots/n0"}, &Dump{})
+			}
+		}},
+		{"ack-of-ordered-predecessors-on-two-subscriptions-first", func(e *Env, run func(*Op) *Obs) (string, func()) {
+			return twoSubAck(e, run, "projects/p/subscriptions/s0")
+		}},
+		{"ack-of-ordered-predecessors-on-two-subscriptions-second", func(e *Env, run func(*Op) *Obs) (string, func()) {
+			return twoSubAck(e, run, "projects/p/subscriptions/o1")
+		}},
 		{"dead-letter-forward-into-the-topic", func(e *Env, run func(*Op) *Obs) (string, func()) {
 			baseSetup(run, false, true)
 			run(pub(1, ""))
@@ -289,6 +312,23 @@ func wakeScenarios() []wakeScenario {
 				e.Exec(ctx, &Op{Kind: "StreamAckNack", Nacks: ids}, &Dump{})
 			}
 		}},
+	}
+}
+
+// twoSubAck: one Acknowledge request carrying the ids of the leased same-key predecessors of
+// TWO ordered subscriptions (the handler ignores the subscription named in the request, so
+// such a request is legal): both successors become deliverable, a waiter on either
+// subscription must be woken
+func twoSubAck(e *Env, run func(*Op) *Obs, waitOn string) (string, func()) {
+	ctx := context.Background()
+	baseSetup(run, true, false)
+	run(&Op{Kind: "CreateSub", Sub: &SubReq{Name: "projects/p/subscriptions/o1", Topic: "projects/p/topics/t0", Ordered: true}})
+	run(pub(2, "k"))
+	o0 := run(&Op{Kind: "Pull", Name: "projects/p/subscriptions/s0", Max: 1})
+	o1 := run(&Op{Kind: "Pull", Name: "projects/p/subscriptions/o1", Max: 1})
+	ids := append(mustIDs(o0), mustIDs(o1)...)
+	return waitOn, func() {
+		e.Exec(ctx, &Op{Kind: "Ack", Name: "projects/p/subscriptions/s0", AckIDs: ids}, &Dump{})
 	}
 }
 
